@@ -33,6 +33,12 @@ handshake and Hello reply driven by hand).  Operations:
   ['otherconn']                a second connection of the process is made ready with one call outstanding
   ['callbig', rs]              callRemote whose message exceeds the maximum size (raises after the serial is taken)
 
+Stream two-connections: {'stream': 'two-connections', 'ops': [[conn, op], ...]}, conn 'A' | 'B': two live connections of one
+process (one reactor, one serial counter - not set by the harness: no 'serial0'), each with its own monitor and its own
+run of the model; an operation on one is an idle step of the other.  who = ['x', k] in a reply: the serial of the k-th
+top-level call of the OTHER connection.  A scenario may carry 'history': scenarios run first in the same process.
+After every step every result delivered so far is looked at again (a delivered list / RemoteError must not change).
+
 Replies are real message bytes (MethodReturnMessage / ErrorMessage .rawMessage) through
 dataReceived.  After every operation the harness records: the new firings of every Deferred
 handed out (each callback/errback firing is recorded), `_pendingCalls` (in dict order), and
@@ -105,6 +111,9 @@ ASSUMPTIONS = [
     'timer-left-after-loss; theorem disconnect_callback_calls_get_loss_reason); a call issued by the ERRBACK of a call '
     'the loss has just failed is issued after the loss: only its own deadline is owed (or an immediate loss failure)',
     'Twisted calls connectionLost at most once and delivers no data afterwards',
+    'a result, once delivered, belongs to the caller: the list of values / the name, message and values of a RemoteError '
+    'still read the same after later replies on this or another connection (keys delivered-value-changed-later, '
+    'delivered-remoteerror-changed-later); that two results are distinct OBJECTS is not demanded, only that none changes',
     'argument domains: timeout is None, 0 / 0.0, or a positive finite int / float / True; negative, NaN, infinite or '
     'non-numeric timeouts are not modelled (Clock and the real reactor differ on them; a str makes callRemote return a '
     'failed Deferred with nothing registered); returnSignature is the default, None or a str',
@@ -118,7 +127,9 @@ RULE = ('scenarios: all interleavings of per-call event lists (issue, then retur
         'without deadline) run by an error reply, a deadline, a signature mismatch or the loss, then every short order '
         'of deadline / reply / loss on the retries, plus random ones; 1-3 disconnect callbacks that raise or issue '
         'calls (deadline / none / timeout=0) with 0-2 calls outstanding (plain or with retrying errbacks) at the loss; '
-        'reply contents, return signatures and timeout '
+        'two live connections with calls and deadlines on both, one lost, deadlines and late replies carrying the lost '
+        "connection's serials on the other, then the second loss (systematic + random); the called path / member / "
+        'interface / destination / arguments rotate over 5 targets; reply contents, return signatures and timeout '
         'kinds rotate over fixed variant tables.  distinct = distinct canonical JSON of the scenario; non-trivial = at '
         'least one call and one event after it')
 
@@ -1828,7 +1839,7 @@ def monitor_two(scn):
         lines, faults, serials, targets = im.do(op)
         other.created = []
         steps[c].append(_step(im, mons[c], op, lines, faults, im.rec[n0:], serials, targets, list(im.created)))
-        steps[o].append(_step(other, mons[o], ['idle', c, op], [], [], other.rec[m0:], [], [], []))
+        steps[o].append(_step(other, mons[o], ['idle', c, op], [], [], other.rec[m0:], [], [], list(other.created)))
     out = []
     for c in 'AB':
         for st in steps[c]:
@@ -1926,7 +1937,7 @@ class Exemplars:
         if best is not None and best[0] <= size:
             return best[1], True
         if self.tries.get(key, 0) >= self.TRIES:
-            return (best[1], True) if best else (scn, False)
+            return (best[1], True) if best else (self.with_history(scn), False)
         self.tries[key] = self.tries.get(key, 0) + 1
         before = [h for h in self.recent if h is not scn]
         hists = [[]]
@@ -1945,10 +1956,17 @@ class Exemplars:
                 if best is None or cand[0] < best[0]:
                     self.best[key] = best = cand
                 return best[1], True
-        return (best[1], True) if best else (scn, False)
+        return (best[1], True) if best else (self.with_history(scn), False)
+
+    def with_history(self, scn):
+        """Not confirmed: the scenarios that ran just before it go with it (and make it larger than any confirmed
+        exemplar found later, which then replaces it)."""
+        inp = dict(scn)
+        inp['history'] = [{k: v for k, v in h.items() if k != 'history'} for h in self.recent if h is not scn]
+        return inp
 
 
-def process_batch(ctx, batch):
+def process_batch(ctx, batch, replaying=False):
     """batch: list of scenarios.  Runs implementation + monitor, then the model on all lines at once."""
     ex = ctx.__dict__.setdefault('_c08_exemplars', Exemplars())
     results = []
@@ -1967,7 +1985,7 @@ def process_batch(ctx, batch):
             # judged here, while the process is in the state in which the scenario ran
             for im, steps, problems in traces:
                 for key, text in problems:
-                    inp, confirmed = ex.input_for(key, scn)
+                    inp, confirmed = (scn, True) if replaying else ex.input_for(key, scn)
                     if not confirmed:
                         text += ' [seen in a run of many scenarios in one process; this input alone, on a freshly ' \
                                 'imported txdbus, did not show it - state left by earlier scenarios is involved]'
@@ -2121,6 +2139,6 @@ def replay(ctx, data):
         if scn.get('stream') == 'cvt-direct':
             run_cvt_direct(ctx)
         else:
-            process_batch(ctx, [scn])
+            process_batch(ctx, [scn], replaying=True)
     finally:
         client.reactor = saved_reactor
